@@ -58,7 +58,16 @@ func (d *dialer) Dial() error {
 		return nil
 	}
 	d.Unlock()
-	return d.dial(false)
+	err := d.dial(false)
+	if err != nil {
+		// A synchronous Dial that failed has started nothing (no redial
+		// is scheduled): the caller may correct what was wrong and call
+		// Dial on this dialer again.
+		d.Lock()
+		d.active = false
+		d.Unlock()
+	}
+	return err
 }
 
 func (d *dialer) Close() error {
